@@ -50,6 +50,10 @@ func init() {
 			for t := 0; t < 8; t++ {
 				cases = append(cases, Case{ID: fmt.Sprintf("navigation text=%d", t), Pkg: "internal/lsp", Fn: "ZZC19Nav", Args: []string{fmt.Sprint(t)}, Tag: "navigation"})
 			}
+			// version numbers chosen by the editor (any order)
+			for _, abc := range [][3]string{{"0", "1", "2"}, {"1", "0", "1"}, {"2", "2", "0"}, {"0", "0", "1"}} {
+				cases = append(cases, Case{ID: "versions " + abc[0] + abc[1] + abc[2], Pkg: "internal/lsp", Fn: "ZZC19Versions", Args: []string{abc[0], abc[1], abc[2]}, Tag: "version-numbers"})
+			}
 			return cases
 		},
 		Bounds: stdBounds(
